@@ -300,6 +300,51 @@ def run(ck):
                         ck.fail("trace:opensystem-excited-pulse", "pulse resonant with the transitions excites nothing", inp, float(numpy.real(numpy.trace(d_ps))))
             except Exception as e:
                 ck.fail("raises:opensystem-excited-pulse", "get_excited_density_matrix(('pulse_spectrum', spectrum)) raised %r" % (e,), inp)
+    # ---- the bath of a built aggregate replaced (set_SystemBathInteraction): the site equilibrium follows the bath the aggregate has now -----
+    from quantarhei.qm import SystemBathInteraction, Operator
+    from quantarhei.qm.corfunctions import CorrelationFunctionMatrix
+    from quantarhei import convert
+    for hb_ in range(ck.n(2, 8)):
+        en_b = [12000.0, 12050.0 + 10.0 * hb_, 12100.0]
+        lam1, lam2 = [30.0, 30.0, 30.0], [20.0, 160.0 + 10.0 * hb_, 40.0]
+        Tq = (300.0, 77.0, 0.0, 150.0)[hb_ % 4]
+        inpb = {"sites": 3, "energies_cm": en_b, "reorganisation_energies_first_bath_cm": lam1, "after set_SystemBathInteraction_cm": lam2, "T": Tq,
+                "history": "strong-coupling state; bath replaced; strong-coupling state"}
+        try:
+            with energy_units("1/cm"):
+                mb_ = []
+                for k_ in range(3):
+                    mm_ = Molecule([0.0, en_b[k_]])
+                    mm_.set_transition_environment((0, 1), CorrelationFunction(ta, dict(ftype="OverdampedBrownian", reorg=lam1[k_], cortime=100.0, T=300.0)))
+                    mb_.append(mm_)
+                ab_ = Aggregate(mb_)
+                ab_.set_resonance_coupling(0, 1, 100.0); ab_.set_resonance_coupling(1, 2, -60.0)
+            ab_.build()
+            ab_.get_DensityMatrix(condition_type="thermal_excited_state", relaxation_theory_limit="strong_coupling", temperature=Tq)
+            Nb_ = ab_.get_Hamiltonian().dim
+            opsb, cfb = [], CorrelationFunctionMatrix(ta, 3)
+            with energy_units("1/cm"):
+                for k_ in range(3):
+                    ob_ = Operator(dim=Nb_, real=True); ob_.data[k_ + 1, k_ + 1] = 1.0
+                    opsb.append(ob_)
+                    cfb.set_correlation_function(CorrelationFunction(ta, dict(ftype="OverdampedBrownian", reorg=lam2[k_], cortime=100.0, T=300.0)), [(k_, k_)])
+            ab_.set_SystemBathInteraction(SystemBathInteraction(opsb, cfb, system=ab_))
+            r2_ = numpy.array(ab_.get_DensityMatrix(condition_type="thermal_excited_state", relaxation_theory_limit="strong_coupling", temperature=Tq).data)
+            ck.case(("bath-replaced", hb_), nontrivial=True, condition="thermal_excited_state", limit="strong_coupling", lowT=bool(Tq == 0.0), inside=False)
+            if check_state(r2_, "thermal_excited_state:strong_coupling:bath-replaced", inpb):
+                ens_ = numpy.array([float(convert(en_b[k_] - lam2[k_], "1/cm", "int")) for k_ in range(3)])
+                pops_ = numpy.real(numpy.diag(r2_))[1:4]
+                if Tq == 0.0:
+                    if abs(pops_[int(numpy.argmin(ens_))] - 1.0) > 1e-12:
+                        ck.fail("zeroT:thermal_excited_state:strong_coupling:bath-replaced", "at T = 0 the population is not on the lowest relaxed site of the "
+                                "bath the aggregate has now", inpb, pops_.tolist())
+                else:
+                    w_ = numpy.exp(-(ens_ - ens_.min()) / (kB_intK * Tq)); w_ = w_ / w_.sum()
+                    if numpy.abs(pops_ - w_).max() > 1e-9:
+                        ck.fail("ratio:thermal_excited_state:strong_coupling:bath-replaced", "after the bath was replaced the site populations are not the Boltzmann "
+                                "populations of the site energies minus the reorganisation energies of the present bath", inpb, pops_.tolist(), w_.tolist())
+        except Exception as e:
+            ck.fail("raises:bath-replaced", "strong-coupling state after set_SystemBathInteraction raised %r" % (e,), inpb)
     # ---- single molecules with several excited levels and a vibrational mode: equilibrium at the temperature of whatever bath the molecule
     # still has (also after one of its baths was removed), the 0 K state when it has none, the same physical state in any basis context ----
     from quantarhei.qm.hilbertspace.operators import SelfAdjointOperator
